@@ -69,6 +69,7 @@ def check(ctx):
     d2_roles(ctx, idx)
     d3_consolidate(ctx, idx)
     d4_samples(ctx, idx)
+    d4_count(ctx, idx)
     d4_credit(ctx, idx)
     d5_tables(ctx, idx)
 
@@ -1440,6 +1441,79 @@ def _iterator_consumed_before_loop(r, idx, fi, name, loop):
                     seq.id, what, short(c), (' (when %s)' % ' and '.join(unparse(g) for g in guards)) if guards else ''),
                 lib.loc(fi, c), expected='look at var_samples[0] (or restart the iterator) instead of consuming an element')
     return True
+
+
+def _is_cfg_samples(e):
+    return nf.config_key(e) == 'samples'
+
+
+def d4_count(ctx, idx):
+    """The sample lists the graders loop over have config['samples'] entries on every route: D4.SAMPLES accepts
+    `range(len(var_samples))` as a loop header, so the length of var_samples is an obligation of the producer."""
+    r = ctx.rule('D4.COUNT', "every gen_symbols_samples call of gen_var_and_func_samples draws config['samples'] samples, and no "
+                 'caller of gen_var_and_func_samples asks for another number', floor=2)
+    with r:
+        fi = idx.func(MM + '.gen_var_and_func_samples')
+        fn = fi.node
+        calls = [c for c in ast.walk(fn) if isinstance(c, ast.Call) and nf.callee_name(c) == 'gen_symbols_samples']
+        if not calls:
+            raise AnalysisError('gen_var_and_func_samples: no gen_symbols_samples call found')
+        params = {a.arg for a in fn.args.args + fn.args.kwonlyargs} - {'self'}
+        kwname = fn.args.kwarg.arg if fn.args.kwarg else None
+        caller_keys = set()         # keyword names through which a caller can change the count
+        for c in calls:
+            construct = 'gen_var_and_func_samples: number of samples drawn by `%s`' % short(c, 60)
+            arg = c.args[1] if len(c.args) > 1 else next((k.value for k in c.keywords if k.arg == 'samples'), None)
+            if arg is None:
+                r.undecided(construct, 'samples argument not found', lib.loc(fi, c))
+                continue
+            e = lib.inline_locals(arg, fn)
+            if _is_cfg_samples(e):
+                r.ok(construct, "config['samples']", lib.loc(fi, c))
+                continue
+            # caller-supplied with config['samples'] as the default:  kwargs.get('k', config['samples'])  /  parameter k
+            key = None
+            if isinstance(e, ast.Call) and isinstance(e.func, ast.Attribute) and e.func.attr in ('get', 'pop') and kwname \
+                    and isinstance(e.func.value, ast.Name) and e.func.value.id == kwname and len(e.args) == 2 \
+                    and isinstance(e.args[0], ast.Constant) and _is_cfg_samples(e.args[1]):
+                key = e.args[0].value
+            elif isinstance(e, ast.IfExp) and isinstance(e.test, ast.Compare) and len(e.test.ops) == 1 \
+                    and isinstance(e.test.left, ast.Name) and e.test.left.id in params \
+                    and isinstance(e.test.comparators[0], ast.Constant) and e.test.comparators[0].value is None:
+                a, b = (e.body, e.orelse) if isinstance(e.test.ops[0], ast.Is) else (e.orelse, e.body)
+                if _is_cfg_samples(a) and isinstance(b, ast.Name) and b.id == e.test.left.id:
+                    key = b.id
+            if key is not None:
+                caller_keys.add(key)
+                r.ok(construct, "config['samples'] unless the caller passes %s= (callers checked below)" % key, lib.loc(fi, c))
+            elif isinstance(e, ast.Constant):
+                r.violation(construct, "a fixed number of samples (%s) is drawn instead of config['samples']" % short(e), lib.loc(fi, c),
+                            expected="self.config['samples']", found=short(e))
+            elif nf.config_key(e) is not None:
+                r.violation(construct, "config['%s'] samples are drawn, not config['samples']" % nf.config_key(e), lib.loc(fi, c),
+                            expected="self.config['samples']", found=short(e))
+            else:
+                r.undecided(construct, 'count expression not recognised: %s' % short(e), lib.loc(fi, c))
+        if caller_keys:
+            for q, cfi in sorted(idx.funcs.items()):
+                for c in ast.walk(cfi.node):
+                    if isinstance(c, ast.Call) and isinstance(c.func, ast.Attribute) and c.func.attr == 'gen_var_and_func_samples':
+                        if any(k.arg is None for k in c.keywords):
+                            r.undecided('%s: call of gen_var_and_func_samples' % q, '**-spread keywords not followed', lib.loc(cfi, c))
+                        for k in c.keywords:
+                            if k.arg in caller_keys:
+                                v = lib.inline_locals(k.value, cfi.node)
+                                construct = '%s: number of samples requested from gen_var_and_func_samples' % q.split('.', 2)[-1]
+                                if _is_cfg_samples(v):
+                                    r.ok(construct, "config['samples']", lib.loc(cfi, c))
+                                elif isinstance(v, ast.Constant) or (isinstance(v, ast.IfExp) and any(
+                                        isinstance(b, ast.Constant) for b in (v.body, v.orelse))):
+                                    r.violation(construct, "`%s=%s`: on some configurations a fixed number of samples is compared instead "
+                                                "of config['samples'] (with a single sample failable_evals is not honoured either); "
+                                                "random functions are resampled per sample even when there are no variables"
+                                                % (k.arg, short(v)), lib.loc(cfi, c), expected="self.config['samples']", found=short(v))
+                                else:
+                                    r.undecided(construct, 'requested count not recognised: %s' % short(v), lib.loc(cfi, c))
 
 
 def d4_samples(ctx, idx):
